@@ -54,7 +54,7 @@ C = {
              lambda r: r["obs"]["f_name"][1].__setitem__(0, r["obs"]["f_name"][1][0] + 1)),
             ("default replaced", lambda r: r.get("kind") == "song" and r["obs"].get("f_offset") == ["int", [0]] and not r["raised"], lambda r: r["obs"].__setitem__("f_offset", ["int", [1]]))],
     "C11": [("hinted timestamp bumped", lambda r: any(q["raised"] == "" for q in r.get("lk", [])), lambda r: next(q for q in r["lk"] if q["raised"] == "").__setitem__("us", bump_limbs(next(q for q in r["lk"] if q["raised"] == "")["us"]))),
-            ("stored index +1", lambda r: any(o["idx"] >= 0 for o in r.get("obs", [])), lambda r: next(o for o in r["obs"] if o["idx"] >= 0).__setitem__("idx", next(o for o in r["obs"] if o["idx"] >= 0)["idx"] + 1))],
+            ("returned index +1", lambda r: any(q["raised"] == "" and q.get("uraised", "") == "" for q in r.get("lk", [])), lambda r: next(q for q in r["lk"] if q["raised"] == "" and q.get("uraised", "") == "").__setitem__("uidx", next(q for q in r["lk"] if q["raised"] == "" and q.get("uraised", "") == "")["uidx"] + 1))],
     "C12": [("an earlier time made later", lambda r: len(r.get("obs", [])) > 2 and not r["raised"], lambda r: r["obs"][0].__setitem__("us", [9999, 9999, 9999, 9]))],
     "C13": [("a track digest changed", lambda r: r.get("tr"), lambda r: r["tr"][0].__setitem__("d", "x" + r["tr"][0]["d"])),
             ("an extra track returned", lambda r: r.get("outcome") == "chart", lambda r: r["tr"].append({"h": "EasyKeyboard", "d": "1", "ref": "1"}))],
